@@ -8,8 +8,8 @@ from .common import *
 
 META = {
     "level": "other",
-    "explanation": "Wiring check of the two implementations of a bit-level region (necessary: any mismatch mis-packs some layout): (R1) at the 7 sites where Bitwise, Bytewise, BitsSwapped and ByteSwapped instantiate Transformed/Restreamed, decoder and encoder are an inverse pair of the independent helper table, the decoder is the one that produces the representation the inner construct works on, and the sized and the streaming branch of a macro use the same pair in the same roles; (R2) unit arithmetic with exact rationals: Transformed(sub, dec, da, enc, ea) needs da * ratio(dec) = sizeof(sub) = ea / ratio(enc)... i.e. da = ea = size / ratio(dec); Restreamed(sub, dec, du, enc, eu, sc) needs du = input granule of dec, eu = input granule of enc and sc(n) = n / ratio(dec); (R3) BitsInteger._parse/_build are duals (same parameters consulted the same way, same guards, mutually inverse helper chain with the swap step guarded by the same evaluated flag and placed on the stream side) and the lookup tables of lib/binary.py are inverse by construction; (R4) BitStruct is Bitwise(Struct(...)); the streaming branch is reached only through the SizeofError handler; RestreamedBytesIO.read feeds the decoder chunks of exactly decoderunit and hands out exactly `count` units from the front of its buffer, write appends to its buffer and flushes slices of exactly encoderunit from the front (FIFO), close refuses leftovers.",
-    "undecided": "MSB-first arithmetic inside integer2bits/bits2integer/bytes2bits (numerical; e.g. the sign test of bits2integer) stays with dynamic techniques.",
+    "explanation": "Wiring check of the two implementations of a bit-level region (necessary: any mismatch mis-packs some layout): (R1) at the 7 sites where Bitwise, Bytewise, BitsSwapped and ByteSwapped instantiate Transformed/Restreamed, decoder and encoder are an inverse pair of the independent helper table, the decoder is the one that produces the representation the inner construct works on, and the sized and the streaming branch of a macro use the same pair in the same roles; (R2) unit arithmetic with exact rationals: Transformed(sub, dec, da, enc, ea) needs da * ratio(dec) = sizeof(sub) = ea / ratio(enc)... i.e. da = ea = size / ratio(dec); Restreamed(sub, dec, du, enc, eu, sc) needs du = input granule of dec, eu = input granule of enc and sc(n) = n / ratio(dec); (R3) BitsInteger._parse/_build are duals (same parameters consulted the same way, same guards, mutually inverse helper chain with the swap step guarded by the same evaluated flag and placed on the stream side) and the lookup tables of lib/binary.py are inverse by construction; (R4) BitStruct is Bitwise(Struct(...)); the streaming branch is reached only through the SizeofError handler; RestreamedBytesIO.read feeds the decoder chunks of exactly decoderunit and hands out exactly `count` units from the front of its buffer, write appends to its buffer and flushes slices of exactly encoderunit from the front (FIFO), close refuses leftovers. R4 also: a sized read that meets the end of the substream returns b'' and leaves buffer and tell() untouched, a successful read advances tell() by the units handed out; (R5) reference forms of lib/binary.py decided on path summaries with bound terms constant-folded for widths 1..72: integer2bits accepts exactly the two's-complement / unsigned range, encodes negatives as number + 2^width and fills the buffer backwards with number & 1 / number >>= 1; bits2integer accumulates (number << 1) | bit in order and subtracts 2^len exactly when signed and the leading bit is set (first-bit test or magnitude >= 2^(len-1)); integer2bytes/bytes2integer are int.to_bytes/from_bytes(..., 'big', signed=signed); swapbytes reverses, swapbytesinbits reverses 8-bit groups keeping each group's bit order, swapbitsinbytes maps through the bit-reversal table; the three lookup tables are the documented comprehensions (as terms, not text).",
+    "undecided": "Widths above 72 in the constant-folded bound checks; helpers rewritten in a form none of the R5 rules recognises are reported as undecided (exit 2), not decided.",
     "trusted_base": ["python ast (3.12)", "sa.summ summariser", "sa/tables.py HELPER_UNITS/INVERSE_PAIRS (semantic facts from the property statement)"],
     "assumptions": ["sub-construct size is a multiple of the unit (documented precondition of Bitwise/Bytewise)"],
 }
